@@ -36,6 +36,7 @@ type scriptMsg struct {
 }
 
 type fakeObs struct {
+	flood      bool // a busy source: non-matching events (value 0) are always queued
 	script     []scriptMsg
 	subscribes int32
 	closes     int32
@@ -72,6 +73,21 @@ func (o *fakeObs) Subscribe(ctx context.Context, _ events.Subscription) (events.
 		return nil, errors.New("subscribe failed")
 	}
 	s := &fakeStream{o: o, ch: make(chan events.Message), done: make(chan struct{})}
+	if o.flood {
+		s.ch = make(chan events.Message, 1<<14)
+		for p := 0; p < 4; p++ {
+			go func() {
+				for {
+					select {
+					case s.ch <- events.WithValue(values.NewInt(0)):
+					case <-s.done:
+						return
+					}
+				}
+			}()
+		}
+		return s, nil
+	}
 	go func() {
 		start := time.Now()
 		for _, m := range o.script {
@@ -269,6 +285,63 @@ func waitScripts(m *Meta, tier string, rng *rand.Rand, out string) {
 		}(i)
 	}
 	// WAIT released by cancellation / deadline
+	// a busy source (an event that does not pass the filter is always queued): TIMEOUT, a deadline and
+	// a cancel must still release the pending WAITFOR promptly, with an error
+	for fi, how := range []string{"timeout", "deadline", "cancel"} {
+		wg.Add(1)
+		go func(fi int, how string) {
+			defer wg.Done()
+			obs := &fakeObs{flood: true}
+			c := compiler.New()
+			Must(c.RegisterFunction("OBS", func(context.Context, ...core.Value) (core.Value, error) { return obs, nil }))
+			q := `LET o = OBS() LET e = (WAITFOR EVENT "x" IN o FILTER CURRENT > 5 TIMEOUT 5000) RETURN e`
+			ctx, cancel := context.WithCancel(context.Background())
+			switch how {
+			case "timeout":
+				q = `LET o = OBS() LET e = (WAITFOR EVENT "x" IN o FILTER CURRENT > 5 TIMEOUT 100) RETURN e`
+			case "deadline":
+				ctx, cancel = context.WithTimeout(context.Background(), 100*time.Millisecond)
+			default:
+				time.AfterFunc(100*time.Millisecond, cancel)
+			}
+			defer cancel()
+			prog, err := c.Compile(q)
+			Must(err)
+			done := make(chan error, 1)
+			start := time.Now()
+			go func() {
+				defer func() {
+					if r := recover(); r != nil {
+						done <- fmt.Errorf("panic escaped: %v", r)
+					}
+				}()
+				_, rerr := prog.Run(ctx, runtime.WithLog(io.Discard))
+				done <- rerr
+			}()
+			var rerr error
+			released := true
+			select {
+			case rerr = <-done:
+			case <-time.After(3 * time.Second):
+				released = false
+				cancel()
+			}
+			el := int(time.Since(start) / time.Millisecond)
+			if !released || rerr == nil || el > 1500 {
+				report(map[string]interface{}{"key": "waitfor-busy|" + how, "what": fmt.Sprintf("WAITFOR EVENT with a filter on a busy source (non-matching events always queued) and a 100 ms %s: released=%v err=%v after %d ms", how, released, rerr, el), "tags": []string{"waitfor", "busy"}})
+			}
+			if released {
+				time.Sleep(30 * time.Millisecond)
+				if cl := atomic.LoadInt32(&obs.closes); cl != 1 {
+					report(map[string]interface{}{"key": "waitfor-busy-close|" + how, "what": fmt.Sprintf("WAITFOR EVENT on a busy source (%s): subscription closed %d times", how, cl), "tags": []string{"waitfor", "busy"}})
+				}
+			}
+			mu.Lock()
+			m.Evaluations++
+			m.Count("waitfor-busy-source")
+			mu.Unlock()
+		}(fi, how)
+	}
 	// (the WAIT is cut short: Run must report an error whether or not anything is evaluated after it,
 	// and whether the context ends by its deadline or by an explicit cancel)
 	for wi, wq := range []string{`WAIT(5000) RETURN 1`, `RETURN WAIT(5000)`, `FOR i IN [1] RETURN WAIT(5000)`, `RETURN true ? WAIT(5000) : 0`, `LET x = WAIT(5000) RETURN x`, `RETURN [WAIT(5000)]`} {
